@@ -48,8 +48,9 @@ impl IgnoreFilter {
 		let origin = origin.as_ref();
 
 		let mut ignores = Trie::new();
+		// same root node as `new()`: global ignores and globs are relative to the origin
 		ignores.insert(
-			origin.display().to_string(),
+			prefix(origin),
 			Ignore {
 				gitignore: Gitignore::empty(),
 				builder: Some(GitignoreBuilder::new(origin)),
